@@ -91,11 +91,16 @@ Aspects(prev, o, ev) ==
      \cup (IF lr.R \notin RAllowed(o) \/ o.r.I # lr.I THEN {"ir"} ELSE {})
      \cup (IF o.halt # (ev.h = 1) THEN {"halt"} ELSE {})
      \cup (IF MemBad(prev, o, ev.md) THEN {"mem"} ELSE {})
-     \cup (IF Outs(o.pio) # Outs(ev.pio) THEN {"out"} ELSE {})
+     \* ("ioc": the bundled array port device was attached without the recording wrapper - no port log; its
+     \*  contents after the Step are compared instead, aspect "out")
+     \cup (IF "ioc" \notin DOMAIN ev /\ Outs(o.pio) # Outs(ev.pio) THEN {"out"} ELSE {})
+     \cup (IF "ioc" \in DOMAIN ev
+              /\ \E p \in 1 .. Len(ev.ioc) : ev.ioc[p] # (IF (p - 1) \in DOMAIN o.iom THEN o.iom[p - 1] ELSE 0)
+           THEN {"out"} ELSE {})
      \* ("bare": the real memory object was attached without the recording wrapper - no access log)
      \cup (IF "bare" \notin DOMAIN ev /\ ~SameBag(o.rd, ev.rd) THEN {"rd"} ELSE {})
      \cup (IF "bare" \notin DOMAIN ev /\ ~SameBag(o.wr, ev.wr) THEN {"wr"} ELSE {})
-     \cup (IF o.pio # ev.pio THEN {"pio"} ELSE {})
+     \cup (IF "ioc" \notin DOMAIN ev /\ o.pio # ev.pio THEN {"pio"} ELSE {})
      \cup (IF HcSeen(prev, <<o.hc[1] - prev.hc[1], o.hc[2] - prev.hc[2]>>) # ev.hc THEN {"hc"} ELSE {})
      \cup (IF o.pend # PendOf(ev.pend) THEN {"pend"} ELSE {})
 
@@ -112,7 +117,9 @@ Adopt(prev, o, ev) ==
   IN [prev EXCEPT !.r = RegsOf(ev.r), !.m = Overlay(ev.md, @), !.halt = ev.h = 1,
                   !.pend = PendOf(ev.pend),
                   !.hc = <<@[1] + ev.hc[1], @[2] + ev.hc[2]>>,
-                  !.iom = IF prev.io.ik = "dumb"
+                  !.iom = IF "ioc" \in DOMAIN ev
+                          THEN [p \in 0 .. (Len(ev.ioc) - 1) |-> ev.ioc[p + 1]]
+                          ELSE IF prev.io.ik = "dumb"
                           THEN [p \in {outs[i][2] : i \in {j \in 1 .. Len(outs) : outs[j][2] < prev.io.len}} |->
                                   LET i == CHOOSE i \in 1 .. Len(outs) :
                                              outs[i][2] = p /\ \A j \in (i + 1) .. Len(outs) : outs[j][2] # p
